@@ -172,6 +172,9 @@ func c10DedupAfterSort(c *Ctx, r *Report, rule string) {
 			equals = append(equals, ci)
 		}
 	})
+	if compact := compactByBytesEqual(fn); compact != nil {
+		equals = append(equals, compact)
+	}
 	if len(sorts) == 0 || len(equals) == 0 {
 		r.fail(rule, "rawSignatureData", c.pos(fn.Pos()), "rawSignatureData has %d sort and %d equality calls: repeated records are not removed from the sorted RRset (RFC 4034 s.6.3)", len(sorts), len(equals))
 		return
